@@ -382,7 +382,7 @@ def run(tier):
     extra["litmus_executions"] = lit_exec
     ex = explorations(tier)
     ex.append(("bundled console observers (update thread on the shim layer) as members of progress=[...], one member may fail to start", OBS_FACTORY,
-               obs_thread_cfgs(tier), {"preempt": 1, "timer": 1, "yield": 1} if tier == "quick" else {"preempt": 2, "timer": 2, "yield": 2}))
+               obs_thread_cfgs(tier), {"preempt": 1, "timer": 1, "yield": 1} if tier == "quick" else {"preempt": 2, "timer": 1, "yield": 1}))
     ex.append(("engine n<=2, W=1..3, one thread start refused by the interpreter (environment choice)", REFUSE_FACTORY,
                list(small_cfgs([1, 2], ["default"], Ws=[1, 2, 3], faults=False)), {"preempt": 1, "startfail": 1}))
     return e1prop.run(PROP, ex, extra_cov=extra, extra_viol=cyc_v + conf_v)
